@@ -111,10 +111,26 @@ def q_prepare(a, b, ctx, masked=False):
         ctx.violation("prepare-equivalent-changed", f"equivalent units {a!r}->{b!r} changed numbers")
 
 
-def q_link(a, b, ctx, publish_unit=None, masked=False, flipped=False):
+def q_link(a, b, ctx, publish_unit=None, masked=False, flipped=False, spill=False):
     """producer declares a, consumer declares b; optionally the payload is quantified in publish_unit. flipped: both
     ends on a grid, the consumer's with the axis direction reversed (the conversion then acts on a transformed
-    view of the stored data). The same stored item is pulled three times: every pull must be the exact conversion."""
+    view of the stored data). The same stored item is pulled three times: every pull must be the exact conversion.
+    spill: the output has a memory limit of 0 bytes (everything it keeps is written to disk and re-read on pull)
+    and two later items are published before the first pull, so the judged item comes back from its file."""
+    import finam as fm
+    from finam.data import tools
+
+    if spill:
+        import tempfile
+
+        with tempfile.TemporaryDirectory(prefix="vf-c17-") as tmp:
+            return _q_link(a, b, ctx, publish_unit, masked, flipped, tmp)
+    return _q_link(a, b, ctx, publish_unit, masked, flipped, None)
+
+
+def _q_link(a, b, ctx, publish_unit, masked, flipped, spill_dir):
+    import datetime as dt
+
     import finam as fm
     from finam.data import tools
 
@@ -124,7 +140,7 @@ def q_link(a, b, ctx, publish_unit=None, masked=False, flipped=False):
     else:
         pinfo = _grid_info(a, masked)
         cinfo = _grid_info(b, False) if not masked else fm.Info(time=hs.T0, grid=fm.UniformGrid((6,)), units=b)
-    link = hs.Link(pinfo, [cinfo])
+    link = hs.Link(pinfo, [cinfo]) if spill_dir is None else hs.Link(pinfo, [cinfo], mem_limit=0, mem_loc=spill_dir)
     try:
         link.connect()
     except fm.FinamMetaDataError:
@@ -151,6 +167,14 @@ def q_link(a, b, ctx, publish_unit=None, masked=False, flipped=False):
     if p is not None and not hu.compatible(p, a):
         ctx.violation("publish-accepts-incompatible", f"output declaring {a!r} accepted data in {p!r}")
         return
+    if spill_dir is not None:
+        try:
+            for k in (1, 2):
+                later = X + 1000.0 * k
+                link.out.push_data(later if p is None else tools.UNITS.Quantity(later, p), hs.T0 + dt.timedelta(days=k))
+        except Exception as e:  # pylint: disable=broad-except
+            ctx.violation("publish-raw-error-spill", f"later publication in {p!r} to {a!r} with memory limit 0: {type(e).__name__}: {e}")
+            return
     src = p if p is not None else a
     # published numbers are in unit src; expected at the consumer: src -> a -> b
     in_a = X if (p is None or hu.equivalent(p, a)) else hu.convert(X, p, a)
@@ -164,7 +188,7 @@ def q_link(a, b, ctx, publish_unit=None, masked=False, flipped=False):
         if str(r.units) != str(tools.UNITS.Unit(b)):
             ctx.violation("link-label", f"pulled units {r.units}, consumer declared {b!r}")
         got = np.ma.getdata(r.magnitude[0])
-        suffix = ("-masked-info" if masked else "") + ("-flipped-grid" if flipped else "") + ("" if n_pull == 1 else "-repeated-pull")
+        suffix = ("-masked-info" if masked else "") + ("-flipped-grid" if flipped else "") + ("-spilled" if spill_dir is not None else "") + ("" if n_pull == 1 else "-repeated-pull")
         if not _close(got[keep], exp[keep]):
             ctx.violation("link-values" + suffix, f"{src!r} -> {a!r} -> {b!r} (pull {n_pull} of the same item): got {got}, expected {exp}")
             return
@@ -230,7 +254,7 @@ def q_ints(a, b, ctx):
                 return
 
 
-HELPERS = ["compat", "equiv", "to_units", "prepare", "link", "publish", "prepare_m", "publish_m", "link_m", "link_t", "big", "ints"]
+HELPERS = ["compat", "equiv", "to_units", "prepare", "link", "publish", "prepare_m", "publish_m", "link_m", "link_t", "publish_s", "link_s", "big", "ints"]
 
 
 def run_query(q, ctx):
@@ -256,6 +280,10 @@ def run_query(q, ctx):
         q_link(a, b, ctx, masked=True)
     elif h == "link_t":
         q_link(a, b, ctx, flipped=True)
+    elif h == "publish_s":
+        q_link(b, b, ctx, publish_unit=a, spill=True)
+    elif h == "link_s":
+        q_link(a, b, ctx, spill=True)
     elif h == "big":
         q_big(a, b, ctx)
     elif h == "ints":
